@@ -312,6 +312,50 @@ def public_call_arguments_rule(fx, v, prop, names):
         raise AnalysisBroken('mqtt_client::%s: async_initiate call not found' % (names,))
 
 
+def single_topic_overload_rule(fx, v, prop='C14'):
+    """the one-topic convenience overloads of async_subscribe / async_unsubscribe forward to the list overload with a list of
+    exactly ONE element, the topic parameter itself, and the props parameter itself ("exactly the given topics ...; one reason
+    code per requested topic")."""
+    n = 0
+    seen = set()
+    for f in fx.fns:
+        if f.cls != 'mqtt_client' or f.n not in ('async_subscribe', 'async_unsubscribe') or f.lam:
+            continue
+        for b, i, l, c in f.calls():
+            if callee_name(c) != f.n or callee_cls(c) != 'mqtt_client':
+                continue
+            key = (f.n, f.tu)
+            if key in seen:
+                continue
+            seen.add(key)
+            n += 1
+            v.saw(f)
+            args = [f.resolve(a) for a in c.get('args', [])]
+            lists = []
+            for a in args[:1]:
+                for m in Expr.walk(a):
+                    if m.get('k') == 'init' and isinstance(m.get('args'), list):
+                        lists.append(m)
+            elems = lists[0]['args'] if lists else []
+            def is_param(x, name):
+                x = core(x)
+                for _ in range(4):
+                    if isinstance(x, dict) and x.get('k') == 'ctor' and len([y for y in x.get('args', []) if y.get('k') != 'defarg']) == 1:
+                        x = core([y for y in x['args'] if y.get('k') != 'defarg'][0])
+                    elif isinstance(x, dict) and x.get('k') in ('move', 'cast'):
+                        x = core(x.get('e'))
+                    else:
+                        break
+                return isinstance(x, dict) and x.get('k') == 'ref' and x.get('dk') == 'param' and x.get('n') == name
+            pn = [p_['n'] for p_ in f.params]
+            ok = len(elems) == 1 and is_param(elems[0], pn[0]) and len(args) >= 2 and is_param(args[1], pn[1])
+            v.check(ok, 'R-FLOW', 'mqtt_client::%s(one topic) [%s]' % (f.n, f.tu),
+                    'forwards a list holding exactly the topic parameter, and the props parameter (%d element(s))' % len(elems),
+                    key='%s:R-FLOW:mqtt_client::%s:single-topic-overload' % (prop, f.n), where='%s:%s' % (f.path_file(), l))
+    if n < 2 and not v.violations:
+        raise AnalysisBroken('single-topic overloads of async_subscribe/async_unsubscribe not found (%d)' % n)
+
+
 def reply_matching_rule(fx, v, prop='C01'):
     """an acknowledgement reaches the waiter of ITS exchange: matching is on control code AND packet identifier (client and
     broker identifier spaces overlap).  Shared by every property whose completion goes through the replies registry."""
